@@ -6,6 +6,7 @@ import (
 	nurl "net/url"
 	"os"
 	"os/exec"
+	"path/filepath"
 	"regexp"
 	"sort"
 	"strings"
@@ -51,17 +52,27 @@ type c12Thread struct {
 type c12Scenario struct {
 	name    string
 	threads []c12Thread
+	// X scenarios (documents of the cross corpus): the page, its URL and algorithm travel with the case
+	html string
+	url  string
+	algo int
+}
+
+// c12X is the scenario "two Apply calls on one shared tree with one shared *Options" for an
+// arbitrary document.
+func c12X(html, url string, algo int) c12Scenario {
+	return c12Scenario{name: "X", threads: []c12Thread{{"@case", "apply-shared", 0, algo, true}, {"@case", "apply-shared", 0, algo, true}}, html: html, url: url, algo: algo}
 }
 
 func c12Scenarios() []c12Scenario {
 	return []c12Scenario{
-		{"S-a-min", []c12Thread{{"min", "apply-shared", 0, 0, true}, {"min", "apply-shared", 0, 0, true}}},
-		{"S-a-rich", []c12Thread{{"rich1", "apply-shared", 0, 0, true}, {"rich1", "apply-shared", 0, 0, true}}},
-		{"S-b", []c12Thread{{"rich1", "apply-own", 0, 0, true}, {"rich2", "apply-own", 0, 0, true}}},
-		{"S-c", []c12Thread{{"min", "apply-shared", 0, 0, true}, {"min", "apply-shared", 0, 0, true}, {"min", "apply-own", 30, 1, false}}},
-		{"S-d", []c12Thread{{"rich2", "apply-shared", 0, 0, true}, {"rich2", "reader", 0, 1, false}}},
-		{"S-e-log", []c12Thread{{"min", "apply-shared", 30, 1, false}, {"min", "apply-own", 30, 0, false}}},
-		{"S-f-wrapped", []c12Thread{{"wrapped", "apply-own", 0, 0, true}, {"wrapped", "apply-own", 0, 0, true}}},
+		{name: "S-a-min", threads: []c12Thread{{"min", "apply-shared", 0, 0, true}, {"min", "apply-shared", 0, 0, true}}},
+		{name: "S-a-rich", threads: []c12Thread{{"rich1", "apply-shared", 0, 0, true}, {"rich1", "apply-shared", 0, 0, true}}},
+		{name: "S-b", threads: []c12Thread{{"rich1", "apply-own", 0, 0, true}, {"rich2", "apply-own", 0, 0, true}}},
+		{name: "S-c", threads: []c12Thread{{"min", "apply-shared", 0, 0, true}, {"min", "apply-shared", 0, 0, true}, {"min", "apply-own", 30, 1, false}}},
+		{name: "S-d", threads: []c12Thread{{"rich2", "apply-shared", 0, 0, true}, {"rich2", "reader", 0, 1, false}}},
+		{name: "S-e-log", threads: []c12Thread{{"min", "apply-shared", 30, 1, false}, {"min", "apply-own", 30, 0, false}}},
+		{name: "S-f-wrapped", threads: []c12Thread{{"wrapped", "apply-own", 0, 0, true}, {"wrapped", "apply-own", 0, 0, true}}},
 	}
 }
 
@@ -87,6 +98,17 @@ func c12Enumerate(tier string, emit func(*eng.Case)) {
 			emit(&eng.Case{Kind: "sched", P: map[string]string{"scenario": sc.name, "level": "F", "bound": fmt.Sprint(bound), "shard": fmt.Sprint(sh), "nshards": fmt.Sprint(c12Shards), "doc": fmt.Sprintf("%s F-level bound %d shard %d/%d", sc.name, bound, sh, c12Shards)}})
 		}
 	}
+	// X: the documents of the other checks (quick: every 16th document of the cross corpus), two
+	// calls sharing tree and Options, V-level
+	every := 16
+	if tier == "thorough" {
+		every = 8
+	}
+	crossEmit("C12", tier, "sched", every, func(c *eng.Case) {
+		c.P["scenario"], c.P["level"], c.P["bound"], c.P["shard"], c.P["nshards"] = "X", "V", "1000", "0", "1"
+		c.P["doc"] = "X V-level: " + c.P["doc"]
+		emit(c)
+	})
 	emit(&eng.Case{Kind: "racepass", P: map[string]string{"doc": "free-running -race pass over the scenario bodies", "tier": tier}})
 }
 
@@ -103,10 +125,19 @@ type c12Run struct {
 }
 
 func c12Prepare(sc c12Scenario) *c12Run {
-	docs := c12Docs()
+	var docs map[string]string
+	pageURL := c12URL
+	if sc.name == "X" {
+		docs = map[string]string{"@case": sc.html}
+		if sc.url != "" {
+			pageURL = sc.url
+		}
+	} else {
+		docs = c12Docs()
+	}
 	r := &c12Run{results: make([]string, len(sc.threads)), sharedDoc: map[string]*html.Node{}, sharedSet: map[*html.Node]bool{}, treeSnap: map[string]string{}}
-	u, _ := nurl.Parse(c12URL)
-	r.sharedOpt = &distiller.Options{OriginalURL: u}
+	u, _ := nurl.Parse(pageURL)
+	r.sharedOpt = &distiller.Options{OriginalURL: u, PaginationAlgo: distiller.PaginationAlgo(sc.algo)}
 	r.optSnap = optsSnapshot(r.sharedOpt)
 	for i, th := range sc.threads {
 		i, th := i, th
@@ -207,6 +238,9 @@ func c12Check(c *eng.Case) *eng.Outcome {
 		return c12RacePass(c)
 	}
 	sc, ok := c12Scenario0(c.Get("scenario"))
+	if c.Get("scenario") == "X" {
+		sc, ok = c12X(c.HTML, c.URL, c.Algo), true
+	}
 	if !ok {
 		o.Skipped = "unknown scenario"
 		return o
@@ -459,7 +493,8 @@ func c12RacePass(c *eng.Case) *eng.Outcome {
 	cmd := exec.Command(bin, "-sub", "racepass", "-arg", c.Get("tier"))
 	var so, se bytes.Buffer
 	cmd.Stdout, cmd.Stderr = &so, &se
-	cmd.Env = append(os.Environ(), "GORACE=halt_on_error=0 exitcode=0", "GOMAXPROCS=16")
+	CrossCorpus(c.Get("tier")) // make sure the file exists; the -race binary reads it instead of enumerating again
+	cmd.Env = append(os.Environ(), "GORACE=halt_on_error=0 exitcode=0", "GOMAXPROCS=16", "VERIF_CROSS_DIR="+filepath.Dir(crossPath("quick")))
 	rerr := cmd.Run()
 	o.Execs = 1
 	fmt.Sscan(strings.TrimSpace(so.String()), &o.Execs)
@@ -510,6 +545,30 @@ func RacePassMain(tier string) int {
 			wg.Wait()
 		}
 	}
+	// the X scenario over the cross corpus (file handed over by the parent)
+	every := 16
+	if tier == "thorough" {
+		every = 8
+	}
+	var xs []c12Scenario
+	for i, d := range CrossCorpus(tier) {
+		if i%every == 0 {
+			xs = append(xs, c12X(d.HTML, d.URL, d.Algo))
+		}
+	}
+	for at := 0; at < len(xs); at += par {
+		var wg sync.WaitGroup
+		for k := at; k < at+par && k < len(xs); k++ {
+			r := c12Prepare(xs[k])
+			for _, b := range r.bodies {
+				b := b
+				wg.Add(1)
+				calls++
+				go func() { defer wg.Done(); b() }()
+			}
+		}
+		wg.Wait()
+	}
 	fmt.Println(calls)
 	return 0
 }
@@ -519,12 +578,13 @@ func init() {
 	eng.Register(&eng.Prop{
 		ID:        "C12",
 		DesignRef: "§5 C12",
-		Rule: "closed drivers with forced sharing: S-a two Apply calls on one shared tree with one shared *Options (minimal page; rich page with table, figure, embed, pager), S-b two different rich pages with shared Options, S-c three threads (S-a + a LogEverything/PageNumber call), S-d Apply(tree) || ApplyForReader(bytes), S-e two logging calls, S-f two calls on a page whose paragraphs each sit in their own wrapper and whose root carries a legacy xmlns namespace prefix. " +
+		Rule: "closed drivers with forced sharing: S-a two Apply calls on one shared tree with one shared *Options (minimal page; rich page with table, figure, embed, pager), S-b two different rich pages with shared Options, S-c three threads (S-a + a LogEverything/PageNumber call), S-d Apply(tree) || ApplyForReader(bytes), S-e two logging calls, S-f two calls on a page whose paragraphs each sit in their own wrapper and whose root carries a legacy xmlns namespace prefix; X: the S-a shape (two calls, shared tree, shared Options, the document's own page URL and algorithm) for every 16th (thorough: 8th) document of the cross corpus (documents of C02-C04, C06-C10, C13-C20), V-level. " +
 			"Each scenario is explored by a DFS over the cooperative scheduler's choice points: V-level (scheduling points only at visible operations: package variables ever written, writes to shared trees, lock operations) without preemption bound; F-level (every function entry, loop iteration, package-variable access and node write is a scheduling point) with preemption bound 1 (bound 2 for S-a-min in thorough; in quick the two rich scenarios are explored on every 4th of 48 shards). " +
-			"Oracle on every schedule: each thread's canonical result equals its solo result; no pair of conflicting package-variable accesses from different threads without a common lock; no write to a node of a shared input tree; shared Options and trees unchanged; no panic, deadlock or horizon overrun. Plus one free-running pass of the same bodies under the Go race detector. " +
+			"Oracle on every schedule: each thread's canonical result equals its solo result; no pair of conflicting package-variable accesses from different threads without a common lock; no write to a node of a shared input tree; shared Options and trees unchanged; no panic, deadlock or horizon overrun. Plus one free-running pass of the same bodies (X scenarios included) under the Go race detector. " +
 			"Non-trivial = shards whose executions include >= 1 preemption.",
 		Enumerate:  c12Enumerate,
 		Check:      c12Check,
+		Prepare:    func(tier string) { CrossCorpus(tier) },
 		StepBudget: 1 << 40,
 		Bounds: func(tier string) map[string]any {
 			if tier == "thorough" {
